@@ -4,6 +4,7 @@ package main
 
 import (
 	"bytes"
+	"encoding/json"
 	"fmt"
 	"go/ast"
 	"go/printer"
@@ -99,6 +100,7 @@ func (e *Env) checkImmutable() error {
 }
 
 type Env struct {
+	loopMap map[string][]string // recorded loop headers per function key (see loopOrdinal)
 	muHeaps []string
 	repo    string
 	fset    *token.FileSet
@@ -171,6 +173,7 @@ func loadEnv(repo string) (*Env, error) {
 	if err := e.checkImmutable(); err != nil {
 		return nil, err
 	}
+	e.loadLoopMap("/verif/loopmap.json")
 	return e, nil
 }
 
@@ -360,13 +363,114 @@ func (e *Env) loopStmts(fn *ssa.Function) []ast.Node {
 	return out
 }
 
+// loopHeader: the loop statement's header as normalised text (without its body).
+func (e *Env) loopHeader(n ast.Node) string {
+	var buf bytes.Buffer
+	switch l := n.(type) {
+	case *ast.ForStmt:
+		c := *l
+		c.Body = &ast.BlockStmt{}
+		printer.Fprint(&buf, e.fset, &c)
+	case *ast.RangeStmt:
+		c := *l
+		c.Body = &ast.BlockStmt{}
+		printer.Fprint(&buf, e.fset, &c)
+	}
+	return strings.Join(strings.Fields(buf.String()), " ")
+}
+
+// loopOrdinal: the ordinal the contract uses for loop n of fn. Normally the position of the loop
+// among the function's loops. If the NUMBER of loops differs from the recorded loop map
+// (/verif/loopmap.json, written from the unchanged tree), loops are matched to the recorded ones
+// by their header text (longest common subsequence): a removed loop's invariants are dropped
+// (fewer assumptions: sound), a loop without a recorded counterpart gets ordinal -1 and the unit
+// is reported as unbound.
 func (e *Env) loopOrdinal(fn *ssa.Function, n ast.Node) int {
-	for i, l := range e.loopStmts(fn) {
+	loops := e.loopStmts(fn)
+	idx := -1
+	for i, l := range loops {
 		if l == n {
-			return i + 1
+			idx = i
 		}
 	}
-	return 0
+	if idx < 0 {
+		return 0
+	}
+	rec := e.loopMap[e.keyOf(rootFn(fn))]
+	if rec == nil || len(rec) == len(loops) {
+		return idx + 1
+	}
+	cur := make([]string, len(loops))
+	for i, l := range loops {
+		cur[i] = e.loopHeader(l)
+	}
+	// LCS table
+	m, k := len(cur), len(rec)
+	t := make([][]int, m+1)
+	for i := range t {
+		t[i] = make([]int, k+1)
+	}
+	for i := m - 1; i >= 0; i-- {
+		for j := k - 1; j >= 0; j-- {
+			if cur[i] == rec[j] {
+				t[i][j] = t[i+1][j+1] + 1
+			} else if t[i+1][j] >= t[i][j+1] {
+				t[i][j] = t[i+1][j]
+			} else {
+				t[i][j] = t[i][j+1]
+			}
+		}
+	}
+	i, j := 0, 0
+	for i < m && j < k {
+		if cur[i] == rec[j] {
+			if i == idx {
+				return j + 1
+			}
+			i++
+			j++
+		} else if t[i+1][j] >= t[i][j+1] {
+			if i == idx {
+				return -1
+			}
+			i++
+		} else {
+			j++
+		}
+	}
+	return -1
+}
+
+// loadLoopMap reads the recorded loop headers (function key -> header texts in order).
+func (e *Env) loadLoopMap(path string) {
+	b, err := os.ReadFile(path)
+	if err != nil {
+		return
+	}
+	m := map[string][]string{}
+	if json.Unmarshal(b, &m) == nil {
+		e.loopMap = m
+	}
+}
+
+// currentLoopMap: the loop headers of every function that has loop clauses in its contract.
+func (e *Env) currentLoopMap() map[string][]string {
+	out := map[string][]string{}
+	for key, con := range e.con.Funcs {
+		if len(con.LoopInv) == 0 {
+			continue
+		}
+		fn := e.funcs[key]
+		if fn == nil {
+			continue
+		}
+		var hs []string
+		for _, l := range e.loopStmts(fn) {
+			hs = append(hs, e.loopHeader(l))
+		}
+		out[key] = hs
+	}
+	return out
 }
 
 // rootFn: the function whose contract carries the loop clauses for fn.
